@@ -165,6 +165,37 @@ def step_state(check: Check) -> None:
     check.require({"activation_degree", "triggered"} <= stores, "H5", "Rule.deactivate/resets", "deactivate resets activation_degree and triggered", loc(fn))
 
 
+def _flows_only_to(cfg, n, attr: str, depth: int = 0) -> bool:
+    """The statement at `n` only binds local names, and every use of those definitions is a statement that stores `self.<attr>` and
+    nothing else (or, transitively, another such local binding)."""
+    if depth > 3:
+        return False
+    a = n.ast
+    if not isinstance(a, (ast.Assign, ast.AnnAssign)):
+        return False
+    targets = a.targets if isinstance(a, ast.Assign) else [a.target]
+    if not all(isinstance(t, ast.Name) for t in targets):
+        return False
+    defs = [d for d in cfg.defs_at(n)]
+    if not defs:
+        return False
+    used = False
+    for u in cfg.stmt_nodes():
+        if u is n or u.copy:
+            continue
+        for d in defs:
+            if any(x.id == d.name for x in cfg.uses_at(u)) and d in cfg.defs_reaching(d.name, u):
+                used = True
+                if u.kind != "stmt":
+                    return False
+                st = [t.attr for t in cfg.stores_at(u) if isinstance(t, ast.Attribute)]
+                if st == [attr] and len(cfg.stores_at(u)) == 1:
+                    continue
+                if not _flows_only_to(cfg, u, attr, depth + 1):
+                    return False
+    return used
+
+
 def classify_value_read(p, f, r: Resolver, cfg, n, x: ast.Attribute, recv: Term):
     """Classify a `<recv>.value` load on the processing path; None = not a Variable value."""
     # only receivers that can be Variables: self inside Variable classes, elements of variable lists, `.variable` attributes
@@ -180,6 +211,8 @@ def classify_value_read(p, f, r: Resolver, cfg, n, x: ast.Attribute, recv: Term)
             stores = [t.attr for t in cfg.stores_at(n) if isinstance(t, ast.Attribute)]
             if stores == ["previous_value"]:
                 return ("ok", "own-previous-value", "the old value is read only to record previous_value")
+            if _flows_only_to(cfg, n, "previous_value"):
+                return ("ok", "own-previous-value", "the old value is read (through a temporary) only to record previous_value")
             return ("bad", "own-value", "the output variable's old value is read for something other than recording previous_value")
         return ("ok", "own-value", "a variable reading its own value outside the inference path")
     if recv[0] == "elem":
